@@ -288,9 +288,11 @@ def _build_probe(
                     continue
                 canonical = resolve_builtin(action_def.type)
                 if canonical == ASSIGN:
-                    self._apply_assign(
-                        self._resolve_params(action_def.params, event) or {},
-                        event,
+                    # ✍️ Applied through the shared handler, so an assign
+                    #    below the expansion-depth cut is skipped exactly as
+                    #    the interpreters skip it.
+                    self._collect_builtin_followups(
+                        canonical, action_def, event
                     )
                 elif canonical in (PURE, CHOOSE, ENQUEUE_ACTIONS):
                     # 🌳 These expand into further actions, which are part
@@ -298,9 +300,16 @@ def _build_probe(
                     followups = self._collect_builtin_followups(
                         canonical, action_def, event
                     )
-                    self._execute_actions(
-                        [ActionDefinition(f) for f in followups], event
-                    )
+                    # 🛟 Count the nesting like the interpreters do, so a
+                    #    callback that re-enqueues itself is cut by the same
+                    #    depth guard instead of ending in a RecursionError.
+                    self._action_depth += 1
+                    try:
+                        self._execute_actions(
+                            [ActionDefinition(f) for f in followups], event
+                        )
+                    finally:
+                        self._action_depth -= 1
                 elif canonical == RAISE:
                     # 📨 A raised event belongs to the same macrostep. It is
                     #    queued and processed after the current event; a
